@@ -9,4 +9,7 @@ Extraction "c09_model.ml"
   c09_plan c09_nested_lanes c09_traits c09_ty_hasnan
   c09_s_solve c09_s_invert c09_s_det c09_v_solve c09_v_invert c09_v_det c09_v_trace c09_v_init
   c09_lane_vec c09_lane_mat c09_v_mv c09_s_mv c09_v_infnorm c09_s_infnorm
-  c09_spec_solve c09_spec_invert c09_spec_det.
+  c09_spec_solve c09_spec_invert c09_spec_det
+  c09_s_det_full c09_s_solve_full c09_s_invert_full c09_v_det_full c09_v_solve_full c09_v_invert_full
+  c09_s_umv c09_s_mmv c09_s_usmv c09_s_mtv c09_s_dot c09_s_two_norm2 c09_s_two_norm c09_s_frobenius_norm2 c09_s_frobenius_norm c09_s_vec_infnorm c09_s_one_norm
+  c09_v_umv c09_v_mmv c09_v_usmv c09_v_mtv c09_v_dot c09_v_two_norm2 c09_v_two_norm c09_v_frobenius_norm2 c09_v_frobenius_norm c09_v_vec_infnorm c09_v_one_norm.
